@@ -63,6 +63,24 @@ func verifSnapshotH(nKeys int) []byte {
 	return append(b, c[:]...)
 }
 
+// verifSnapshotHF: verifSnapshotH preceded by a function library (opcode 0xF5), replayed to a version 7
+// target as one FUNCTION RESTORE command
+func verifSnapshotHF(nKeys int) []byte {
+	b := []byte("REDIS0011")
+	b = append(b, 0xF5, 3, 'l', 'i', 'b')
+	b = append(b, 0xFE, 0)
+	for i := 0; i < nKeys; i++ {
+		b = append(b, 0, 2, 's', byte('0'+i), 1, 'v')
+	}
+	b = append(b, 4, 2, 'h', '0', 2, 1, 'a', 1, 'x', 1, 'b', 1, 'y')
+	b = append(b, 0xFF)
+	d := digest.New()
+	d.Write(b)
+	var c [8]byte
+	binary.LittleEndian.PutUint64(c[:], d.Sum64())
+	return append(b, c[:]...)
+}
+
 func verifRdbOutput(fake *verifFake, parallel int) *RedisOutput {
 	cfg := RedisOutputConfig{InputName: "in", CheckpointName: "cp", RunId: "rid1", TargetDb: -1}
 	cfg.EnableResumeFromBreakPoint = true
@@ -129,14 +147,31 @@ func VerifC04TargetError() {
 	fake := verifNewFake()
 	reject := verifChoose("fault", 2) == 1
 	if reject {
-		fake.rejectAt = verifRange("rejectAt", 1, 2*nKeys+4)
+		fake.rejectAt = verifRange("rejectAt", 1, 2*nKeys+5)
 	} else {
 		fake.crashAt = verifRange("failAt", 0, 2*nKeys)
 	}
 	ro := verifRdbOutput(fake, parallel)
-	rd := &verifChanReader{data: verifSnapshotH(nKeys), runId: "rid1", left: 1000}
+	snap := verifSnapshotH(nKeys)
+	withFn := verifChoose("functionLib", 2) == 1
+	if withFn {
+		// the snapshot also carries a function library; the target is a version 7 server
+		snap = verifSnapshotHF(nKeys)
+		ro.cfg.Redis.Version = "7.0"
+	}
+	rd := &verifChanReader{data: snap, runId: "rid1", left: 1000}
 	err := ro.SendRdb(context.Background(), rd)
 	all, cp := verifRdbOutcome(fake, nKeys, 1000)
+	if withFn {
+		fn := false
+		for _, r := range fake.log {
+			if r.cmd == "function" {
+				fn = true
+			}
+		}
+		all = all && fn
+		verifCover(reject && !fn, "target-error.function-library-refused")
+	}
 	if h := fake.st.hash(0, "h0", false); h == nil {
 		all = false
 	} else {
